@@ -73,8 +73,9 @@ structure Variant where
 def unchecked : Variant := { checkedAttrs := false, checkedKey := false }
 def checked : Variant := { checkedAttrs := true, checkedKey := true }
 
-/-- the code of the tree under verification (kmipclient/sign_verify.go at /repo HEAD). -/
-def currentCode : Variant := unchecked
+/-- the code of the tree under verification (kmipclient/sign_verify.go with the repair /tmp/fix-C12-1.diff:
+    checked attribute assertions, key kind compared with the announced algorithm). -/
+def currentCode : Variant := checked
 
 /-- errors of the helper: the error of an exchange (wrapped with `%w`, so that it still carries the failed
     item), or one raised by the helper itself (unexpected object type, unsupported algorithm, missing link,
